@@ -8,6 +8,7 @@ package extractor
 //@ private Extractor writers (*extractorInstance).processLineSync, New
 //@ private SliceSpaceExpressionContext writers (*extractorInstance).processLineSync, (*Extractor).asyncWorker
 //@ private Config writers New, BuildExtractorFromArgumentsEx
+//@ private ExpressionIgnoreSet writers NewIgnoreExpressions
 //@ private extractorInstance writers (*Extractor).asyncWorker
 //@ atomicfield Extractor.readLines, Extractor.matchedLines, Extractor.ignoredLines
 
@@ -110,3 +111,18 @@ package extractor
 //@   requires extractor.readChan != nil && !chan_closed(extractor.readChan) && !wg_waited(wg)
 //@   assert at "close(extractor.readChan)" : wg_waited(wg)
 //@   ensures chan_closed(extractor.readChan)
+
+// ---- C01: the ignore set ----
+// (compiled expressions stored anywhere are never nil: Compile returns one or an error)
+//@ nonnil *rare/pkg/expressions.CompiledKeyBuilder
+// ig_truthy counts the expressions (so far, in this call) whose result was truthy. The loop only
+// goes on while there was none, and the answer is true exactly when one was seen.
+//@ ghost ig_truthy(rare/pkg/extractor.ExpressionIgnoreSet) int
+//@ extern rare/pkg/expressions.Truthy
+//@   pure
+//@   ensures result == (str_trim(s) != "")
+//@ func (*ExpressionIgnoreSet).IgnoreMatch
+//@   modifies world
+//@   ensures [truthy-iff] result == (ig_truthy(s) > old(ig_truthy(s)))
+//@   ghostset at "if expressions.Truthy(result) {" : ig_truthy(s) := old(ig_truthy(s)) + (if str_trim(result) != "" then 1 else 0)
+//@   loop 1 invariant ig_truthy(s) == old(ig_truthy(s)) && rangelen() == len(s.expressions)
